@@ -317,8 +317,8 @@ Proof.
   destruct type_names_distinct as [N1 N2]. unfold set_type.
   destruct f, (get_type d) eqn:G; unfold type_name; rewrite ?str_eqb_refl, ?N1, ?N2; cbn [orb].
   - intro H. apply Ok_inj in H. subst d'. exact G.
-  - intro H. apply to_autough2_mirror_lemma in H. apply H.
-  - intro H. apply to_tough2_clean_lemma in H. apply H.
+  - intro H. apply to_autough2_mirror_lemma in H. destruct H as [H _]. exact H.
+  - intro H. apply to_tough2_clean_lemma in H. destruct H as [H _]. exact H.
   - intro H. apply Ok_inj in H. subst d'. exact G.
 Qed.
 Theorem set_type_other_lemma v d : v <> s2l type_autough2 -> v <> s2l type_tough2 -> set_type v d = Raise PlainException.
